@@ -167,6 +167,11 @@ func verifyPageReachable(p *common.Page, hwm common.Pgid, stack []common.Pgid, r
 	}
 
 	// We should only encounter un-freed leaf and branch pages.
+	for i := common.Pgid(1); i <= common.Pgid(p.Overflow()); i++ {
+		if freed[p.Id()+i] {
+			ch <- fmt.Errorf("page %d: reachable freed (overflow of page %d)", int(p.Id()+i), int(p.Id()))
+		}
+	}
 	if freed[p.Id()] {
 		ch <- fmt.Errorf("page %d: reachable freed", int(p.Id()))
 	} else if !p.IsBranchPage() && !p.IsLeafPage() {
